@@ -54,7 +54,15 @@ pub fn app_control(frame: &[u8]) -> Option<u8> {
 
 impl Pair {
     pub fn new(m: MasterSim, o: OutSim, f: u64, b: u64) -> Pair {
-        Pair { m, o, f, b, in_flight: vec![], delivered: vec![], hold_next_to_master: 0 }
+        Pair {
+            m,
+            o,
+            f,
+            b,
+            in_flight: vec![],
+            delivered: vec![],
+            hold_next_to_master: 0,
+        }
     }
 
     pub fn now(&self) -> u64 {
@@ -65,12 +73,24 @@ impl Pair {
     pub fn pump(&mut self) -> usize {
         let mut n = 0;
         for rec in self.m.pipe.take_tx() {
-            self.in_flight.push(Flight { dir: Dir::ToOutstation, sent_t: rec.t_ms, deliver_at: rec.t_ms + self.f, bytes: rec.bytes, injected: false });
+            self.in_flight.push(Flight {
+                dir: Dir::ToOutstation,
+                sent_t: rec.t_ms,
+                deliver_at: rec.t_ms + self.f,
+                bytes: rec.bytes,
+                injected: false,
+            });
             n += 1;
         }
         for rec in self.o.pipe.take_tx() {
             let hold = std::mem::take(&mut self.hold_next_to_master);
-            self.in_flight.push(Flight { dir: Dir::ToMaster, sent_t: rec.t_ms, deliver_at: rec.t_ms + self.b + hold, bytes: rec.bytes, injected: false });
+            self.in_flight.push(Flight {
+                dir: Dir::ToMaster,
+                sent_t: rec.t_ms,
+                deliver_at: rec.t_ms + self.b + hold,
+                bytes: rec.bytes,
+                injected: false,
+            });
             n += 1;
         }
         n
@@ -78,7 +98,13 @@ impl Pair {
 
     pub fn inject(&mut self, dir: Dir, deliver_at: u64, bytes: Vec<u8>) {
         let now = self.now();
-        self.in_flight.push(Flight { dir, sent_t: now, deliver_at: deliver_at.max(now), bytes, injected: true });
+        self.in_flight.push(Flight {
+            dir,
+            sent_t: now,
+            deliver_at: deliver_at.max(now),
+            bytes,
+            injected: true,
+        });
     }
 
     /// deliver everything that is due now (in order of delivery time, then order of sending); returns what was delivered
@@ -88,7 +114,11 @@ impl Pair {
             let now = self.now();
             let mut best: Option<usize> = None;
             for (i, fl) in self.in_flight.iter().enumerate() {
-                if fl.deliver_at <= now && best.map(|b| fl.deliver_at < self.in_flight[b].deliver_at).unwrap_or(true) {
+                if fl.deliver_at <= now
+                    && best
+                        .map(|b| fl.deliver_at < self.in_flight[b].deliver_at)
+                        .unwrap_or(true)
+                {
                     best = Some(i);
                 }
             }
@@ -112,7 +142,12 @@ impl Pair {
     }
 
     /// run the relay until `done` returns true or `limit_ms` of virtual time have passed; `on_delivery` sees every delivered frame
-    pub async fn run_until(&mut self, limit_ms: u64, mut done: impl FnMut(&mut Pair) -> bool, mut on_delivery: impl FnMut(&mut Pair, &Flight)) -> bool {
+    pub async fn run_until(
+        &mut self,
+        limit_ms: u64,
+        mut done: impl FnMut(&mut Pair) -> bool,
+        mut on_delivery: impl FnMut(&mut Pair, &Flight),
+    ) -> bool {
         let stop = self.now() + limit_ms;
         loop {
             self.pump();
@@ -130,7 +165,12 @@ impl Pair {
             if now >= stop {
                 return false;
             }
-            let next = self.next_delivery().unwrap_or(now + 50).min(now + 50).min(stop).max(now + 1);
+            let next = self
+                .next_delivery()
+                .unwrap_or(now + 50)
+                .min(now + 50)
+                .min(stop)
+                .max(now + 1);
             advance(next - now).await;
         }
     }
